@@ -1046,3 +1046,158 @@ Section Lookups.
     apply (canon_walk_gap _ n _ (eb a) _ pn); [|rewrite Ea; exact Hhi | exact Hnx | exact Hpn].
     intros x Hx. apply in_map_iff in Hx as (e & <- & He). apply in_rev in He. specialize (Hab e He). rewrite Ea in Hab. lia.
   Qed.
+
+  (* above the head: the head itself (the hole answer), provided the walk sees a number under the head; when the
+     head is the LIB block and its parent is not retained, nothing *)
+  Lemma canonical_above s Fin S top S' n : Inv s Fin S -> Ext s Fin S -> S = top :: S' -> bnum top < n ->
+    canonical_block_at s n =
+      if (rn (libref (db s)) <? bnum top) || get_block_by_hash s (bparent top) then bid top else 0.
+  Proof.
+    intros HI HE ES Hn.
+    pose proof (head_is_top s Fin S HI HE) as Hls. rewrite ES in Hls.
+    destruct (shape_of s Fin S top HI HE Hls) as (p & q0 & bot & ehd & Hsh).
+    pose proof Hsh as [Hc HS Hq0 Hbot Hq Hf Ee HhU].
+    pose proof (i_db _ _ _ _ _ _ HI) as Hdb. pose proof (wf_of _ Hdb) as Hwf.
+    rewrite (canonical_walk s Fin S top p q0 bot ehd _ HI Hls Hsh).
+    destruct p as [|et p' _] using rev_ind.
+    - (* the head is the LIB block *)
+      apply chain_nil_inv in Hc. rewrite app_nil_r in *.
+      assert (Hnum : bnum top = rn (libref (db s))).
+      { destruct (di_coh _ _ _ Hdb) as (_ & Hcn & _). apply Hcn; assumption. }
+      replace (rn (libref (db s)) <? bnum top) with false by lia. cbn [orb].
+      destruct q0 as [|el q0' _] using rev_ind.
+      { apply chain_nil_inv in Hq0. rewrite <- Hq0, <- Hc in Hbot. congruence. }
+      destruct (chain_top _ _ _ _ _ Hq0) as [Hfl _]. rewrite <- Hc, Hf in Hfl. injection Hfl as <-.
+      destruct (chain_snoc_inv _ _ _ _ _ Hq0) as (_ & _ & Hq0').
+      rewrite rev_app_distr. cbn [rev app map]. rewrite Ee in *. unfold get_block_by_hash.
+      destruct q0' as [|a1 q0'' _] using rev_ind.
+      + apply chain_nil_inv in Hq0'. rewrite Hq0', Hbot. cbn [rev map].
+        assert (Hfl : num_of (db s) bot = None).
+        { destruct (num_of (db s) bot) as [pn|] eqn:Hn0; [|reflexivity]. exfalso.
+          destruct (num_of_cases _ (di_extra _ _ _ Hdb) _ _ Hn0) as [(e & He & _)|[_ Hb]]; [congruence|].
+          destruct (U_id top HhU) as (_ & _ & Hsp). congruence. }
+        rewrite Hfl. apply canon_walk_above_none. lia.
+      + destruct (chain_top _ _ _ _ _ Hq0') as [Hf1 _]. rewrite Hf1.
+        rewrite rev_app_distr. cbn [rev app map].
+        pose proof (ws_up _ Hwf ehd a1 (proj1 (find_some _ _ _ Hf))) as Hup. rewrite Ee in Hup. specialize (Hup Hf1).
+        apply (canon_walk_above _ n top _ (bnum (eb a1))); [exact Hn | reflexivity | lia].
+    - destruct (chain_top _ _ _ _ _ Hc) as [Hf' _]. rewrite Hf in Hf'. injection Hf' as <-.
+      assert (Hab : rn (libref (db s)) < bnum top).
+      { rewrite <- Ee. apply (di_above U r0 U_id U_up _ Hdb _ _ Hc). apply in_or_app. right. left. reflexivity. }
+      replace (rn (libref (db s)) <? bnum top) with true by lia. cbn [orb].
+      rewrite app_assoc, rev_app_distr. cbn [rev app map]. rewrite Ee.
+      assert (Hnx : exists pn, next_num (num_of (db s) bot) (map eb (rev (q0 ++ p'))) = Some pn /\ pn < n).
+      { rewrite rev_app_distr, map_app. destruct p' as [|a1 p'' _] using rev_ind.
+        - cbn [rev map app]. exists (rn (libref (db s))).
+          split; [apply (next_at_lib s Fin S top _ q0 bot ehd HI Hsh) | lia].
+        - rewrite rev_app_distr. cbn [rev app map next_num]. exists (bnum (eb a1)). split; [reflexivity|].
+          pose proof (chain_lt_top _ _ _ _ ehd a1 Hwf Hc) as Hlt. rewrite Ee in Hlt.
+          assert (bnum (eb a1) < bnum top) by (apply Hlt; apply in_or_app; right; left; reflexivity). lia. }
+      destruct Hnx as (pn & Hnx & Hpn). apply (canon_walk_above _ n top _ pn); assumption.
+  Qed.
+
+  (* under everything that is retained, at or under the LIB: nothing *)
+  Lemma canonical_under s Fin S hd p q0 bot ehd n : Inv s Fin S -> last_sent s = Some hd ->
+    Shape s Fin S hd p q0 bot ehd -> n <= rn (libref (db s)) -> (forall e, In e (q0 ++ p) -> n < bnum (eb e)) ->
+    canonical_block_at s n = 0.
+  Proof.
+    intros HI Hls Hsh Hn Hall. pose proof (i_db _ _ _ _ _ _ HI) as Hdb.
+    rewrite (canonical_walk s Fin S hd p q0 bot ehd _ HI Hls Hsh). apply canon_walk_under.
+    - intros x Hx. apply in_map_iff in Hx as (e & <- & He). apply in_rev in He. apply Hall. exact He.
+    - intros pn Hpn. destruct (num_of_cases _ (di_extra _ _ _ Hdb) _ _ Hpn) as [(e & He & _)|[_ Hb]].
+      + rewrite (sh_bot _ _ _ _ _ _ _ _ Hsh) in He. discriminate.
+      + rewrite Hb, (di_num _ _ _ Hdb) in Hpn. injection Hpn as <-. exact Hn.
+  Qed.
+
+  (* ---------------------------------------------------------------- lowest servable block *)
+
+  Lemma segment_of_shape s Fin S hd p q0 bot ehd : Inv s Fin S -> Shape s Fin S hd p q0 bot ehd ->
+    complete_segment (db s) (bref hd) = Some (map seg_of (q0 ++ p), true).
+  Proof.
+    intros HI [Hc HS Hq0 Hbot Hq Hf Ee HhU]. pose proof (i_db _ _ _ _ _ _ HI) as Hdb.
+    destruct (complete_segment_chain (db s) (bid hd) (bnum hd) bot (q0 ++ p) (wf_of _ Hdb) Hbot Hq) as (rch & Hcs & Hr).
+    { intros e He. rewrite Hf in He. injection He as <-. rewrite Ee. reflexivity. }
+    unfold bref. rewrite Hcs. f_equal. f_equal. apply Hr.
+    destruct q0 as [|el q0' _] using rev_ind.
+    - apply chain_nil_inv in Hq0. left. symmetry. exact Hq0.
+    - right. destruct (chain_top _ _ _ _ _ Hq0) as [_ Hk]. unfold keys. rewrite !map_app. cbn [map].
+      apply in_or_app. left. apply in_or_app. right. left. exact Hk.
+  Qed.
+
+  Lemma lowest_of_shape s Fin S hd p q0 bot ehd : Inv s Fin S -> last_sent s = Some hd ->
+    Shape s Fin S hd p q0 bot ehd ->
+    exists e0 rest, q0 ++ p = e0 :: rest /\ lowest_block_num s = Some (bnum (eb e0)).
+  Proof.
+    intros HI Hls Hsh. unfold lowest_block_num. rewrite Hls, (segment_of_shape s Fin S hd p q0 bot ehd HI Hsh).
+    destruct (q0 ++ p) as [|e0 rest] eqn:Q.
+    - exfalso. pose proof (sh_q _ _ _ _ _ _ _ _ Hsh) as Hq. rewrite Q in Hq. apply chain_nil_inv in Hq.
+      pose proof (sh_hd _ _ _ _ _ _ _ _ Hsh) as Hf. rewrite Hq, (sh_bot _ _ _ _ _ _ _ _ Hsh) in Hf. discriminate.
+    - exists e0, rest. split; reflexivity.
+  Qed.
+
+  (* the lowest block of the consumer chain that is retained together with everything above it, when its parent
+     is not retained *)
+  Lemma lowest_of_stack s Fin S c : Inv s Fin S -> Ext s Fin S -> In c S ->
+    (forall c', In c' S -> bnum c <= bnum c' -> st s c') -> find (bparent c) (store (db s)) = None ->
+    lowest_block_num s = Some (bnum c).
+  Proof.
+    intros HI HE Hin Hst Hpar.
+    pose proof (head_is_top s Fin S HI HE) as Hls. destruct S as [|hd S'] eqn:ES; [destruct Hin|]. rewrite <- ES in *.
+    destruct (shape_of s Fin S hd HI HE Hls) as (p & q0 & bot & ehd & Hsh).
+    destruct (stack_block_on_chain s Fin S hd p q0 bot ehd c HI HE Hls Hsh Hin Hst) as (qq & ec & E' & X1 & Hq & Hec & _).
+    destruct (lowest_of_shape s Fin S hd p q0 bot ehd HI Hls Hsh) as (e0 & rest & Hq' & Hlow).
+    pose proof (sh_q _ _ _ _ _ _ _ _ Hsh) as Hch. rewrite Hq in Hch. rewrite <- Hec in Hpar.
+    pose proof (chain_first _ _ _ _ _ _ Hch Hpar) as ->. cbn [app] in Hq. rewrite Hq in Hq'. injection Hq' as <- _.
+    rewrite Hlow, Hec. reflexivity.
+  Qed.
+
+  (* in general it is at most the number of every such block *)
+  Lemma lowest_le_stack s Fin S c : Inv s Fin S -> Ext s Fin S -> In c S ->
+    (forall c', In c' S -> bnum c <= bnum c' -> st s c') ->
+    exists lo, lowest_block_num s = Some lo /\ lo <= bnum c.
+  Proof.
+    intros HI HE Hin Hst.
+    pose proof (head_is_top s Fin S HI HE) as Hls. destruct S as [|hd S'] eqn:ES; [destruct Hin|]. rewrite <- ES in *.
+    destruct (shape_of s Fin S hd HI HE Hls) as (p & q0 & bot & ehd & Hsh).
+    destruct (stack_block_on_chain s Fin S hd p q0 bot ehd c HI HE Hls Hsh Hin Hst) as (qq & ec & E' & X1 & Hq & Hec & _).
+    destruct (lowest_of_shape s Fin S hd p q0 bot ehd HI Hls Hsh) as (e0 & rest & Hq' & Hlow).
+    exists (bnum (eb e0)). split; [exact Hlow|].
+    pose proof (sh_q _ _ _ _ _ _ _ _ Hsh) as Hch. rewrite Hq in Hch.
+    destruct (chain_split_order _ _ _ _ _ _ (wf_of _ (i_db _ _ _ _ _ _ HI)) Hch) as [_ Hbe].
+    rewrite Hq in Hq'. destruct qq as [|q1 qq']; cbn [app] in Hq'; injection Hq' as <- _.
+    - rewrite Hec. lia.
+    - specialize (Hbe q1 (or_introl eq_refl)). rewrite Hec in Hbe. lia.
+  Qed.
+
+  (* under the lowest servable number, at or under the LIB: the canonical lookup finds nothing *)
+  Lemma canonical_under_lowest s Fin S lo n : Inv s Fin S -> Ext s Fin S -> S <> [] ->
+    lowest_block_num s = Some lo -> n < lo -> n <= rn (libref (db s)) -> canonical_block_at s n = 0.
+  Proof.
+    intros HI HE HS Hlo Hn Hl.
+    pose proof (head_is_top s Fin S HI HE) as Hls. destruct S as [|hd S'] eqn:ES; [contradiction|]. rewrite <- ES in *.
+    destruct (shape_of s Fin S hd HI HE Hls) as (p & q0 & bot & ehd & Hsh).
+    destruct (lowest_of_shape s Fin S hd p q0 bot ehd HI Hls Hsh) as (e0 & rest & Hq' & Hlow).
+    rewrite Hlo in Hlow. injection Hlow as ->.
+    apply (canonical_under s Fin S hd p q0 bot ehd n HI Hls Hsh Hl).
+    pose proof (sh_q _ _ _ _ _ _ _ _ Hsh) as Hch. rewrite Hq' in Hch.
+    destruct (chain_split_order _ _ _ [] e0 rest (wf_of _ (i_db _ _ _ _ _ _ HI)) Hch) as [Hab _].
+    rewrite Hq'. intros e [<-|He]; [exact Hn | specialize (Hab e He); lia].
+  Qed.
+
+  (* a declarative description of the retained chain of the head determines it *)
+  Lemma retained_is_shape s Fin S hd p q0 bot ehd X x0 X' : Inv s Fin S -> Shape s Fin S hd p q0 bot ehd ->
+    X = x0 :: X' -> last X x0 = hd -> linked (bparent x0) X ->
+    (forall x, In x X -> exists e, find (bid x) (store (db s)) = Some e /\ eb e = x) ->
+    find (bparent x0) (store (db s)) = None ->
+    map eb (q0 ++ p) = X.
+  Proof.
+    intros HI Hsh HX Hlast Hlk Hst Hpar.
+    destruct (linked_chain (store (db s)) X (bparent x0) Hlk Hst) as (E & HcE & HmE).
+    { intros x Hx E0. destruct (Hst x Hx) as (e & He & _). rewrite E0, Hpar in He. discriminate. }
+    assert (Htop : match rev X with t :: _ => bid t | [] => bparent x0 end = bid hd).
+    { rewrite <- Hlast. rewrite HX. clear. revert x0. induction X' as [|a X' IH] using rev_ind; intros x0; [reflexivity|].
+      change (x0 :: X' ++ [a]) with ((x0 :: X') ++ [a]). rewrite rev_app_distr, last_last. reflexivity. }
+    rewrite Htop in HcE.
+    destruct (chain_suffix_of _ bot (sh_bot _ _ _ _ _ _ _ _ Hsh) _ _ _ HcE _ (sh_q _ _ _ _ _ _ _ _ Hsh)) as (qx & Hq & Hcx).
+    rewrite (chain_unstored _ _ _ _ Hpar Hcx) in Hq. cbn [app] in Hq. rewrite Hq. exact HmE.
+  Qed.
